@@ -43,6 +43,10 @@ def blkEv (key op : String) (a1 res : String) (ord : String) : XB :=
   { x := { obj := "mq.spsc.block", op := op, a1 := a1, res := res, ord := ord }, bind := some key }
 def nextLoad (r : RSt) (b : Nat) (op ord : String) : XB :=
   { x := { obj := "mq.spsc.next", inst := tokOf r b, op := op, res := ostr r (r.st.sh.next b), ord := ord } }
+def swriteEv (r : RSt) (b i v : Nat) : XB :=
+  { x := { obj := "mq.spsc._slot", inst := tokOf r b, op := "swrite", a1 := toString i, a2 := toString v } }
+def sreadEv (r : RSt) (b i : Nat) : XB :=
+  { x := { obj := "mq.spsc._slot", inst := tokOf r b, op := "sread", a1 := toString i, res := toString (r.st.sh.val b i) } }
 def freeEv (r : RSt) (b : Nat) : XB := { x := { kind := "note", op := "free", a1 := tokOf r b } }
 def plain (x : XEv) : XB := { x := x }
 
@@ -53,6 +57,7 @@ def expectP (r : RSt) (pc : PPc) (e : Env) : Option (List XB) :=
   | .idle, _ => some []
   | .pBlk _, _ => some [blkEv "tail.block" "uload" "0" (pstr r s.tailBlk) "-"]
   | .pIdx .., _ => some [idxEv "tail.index" "uload" "0" (toString s.tailIdx) "-"]
+  | .pWr v tb pi, _ => some [swriteEv r tb (pi % s.B) v]
   | .aFirst _, _ => some [plain { obj := "mq.spsc.first", inst := "0", op := "uload", res := pstr r s.first }]
   | .aLast .., _ => some [plain { obj := "mq.spsc.last_head", inst := "0", op := "uload", res := pstr r s.lastHead }]
   | .aNext _ f, _ => some [nextLoad r f "uload" "-"]
@@ -81,6 +86,8 @@ def expectC (r : RSt) (pc : CPc) (e : Env) : Option (List XB) :=
   | .oIdx, _ | .kIdx, _ | .bIdx _, _ => some [idxEv "head.index" "uload" "0" (toString s.headIdx) "-"]
   | .oTail _, _ | .kTail _, _ | .bTail .., _ | .lTail .., _ => some [idxEv "tail.index" "load" "0" (toString s.tailIdx) "Acquire"]
   | .oBlk _, _ | .kBlk _, _ | .bBlk .., _ => some [blkEv "head.block" "uload" "0" (pstr r s.headBlk) "-"]
+  | .oRd hb hi, _ | .kRd hb hi, _ => some [sreadEv r hb (hi % s.B)]
+  | .bRd _ hb ci _ _, _ => some [sreadEv r hb (ci % s.B)]
   | .oNext hb .., _ | .bNext _ hb .., _ => some [nextLoad r hb "load" "Relaxed"]
   | .oSetBlk nh .., _ | .bSetBlk _ nh .., _ => some [blkEv "head.block" "store" (pstr r nh) "0" "Relaxed"]
   | .oStore hi _, _ => some [idxEv "head.index" "store" (toString (hi + 1)) "0" "Relaxed"]
@@ -95,16 +102,16 @@ def expectC (r : RSt) (pc : CPc) (e : Env) : Option (List XB) :=
   | .ret x, _ => some ((retEv x).map plain)
 
 def pName : PPc → String
-  | .idle => "p.idle" | .pBlk _ => "pBlk" | .pIdx .. => "pIdx" | .aFirst _ => "aFirst" | .aLast .. => "aLast"
+  | .idle => "p.idle" | .pBlk _ => "pBlk" | .pIdx .. => "pIdx" | .pWr .. => "pWr" | .aFirst _ => "aFirst" | .aLast .. => "aLast"
   | .aNext .. => "aNext" | .aSetFirst .. => "aSetFirst" | .aHead .. => "aHead" | .aSetLast .. => "aSetLast"
   | .aAlloc _ => "aAlloc" | .pLink .. => "pLink" | .pSetBlk .. => "pSetBlk" | .pPub .. => "pPub" | .pRet => "pRet"
 
 def cName : CPc → String
   | .idle => "c.idle" | .nAlloc => "nAlloc" | .nRet => "nRet"
-  | .oIdx => "oIdx" | .oTail _ => "oTail" | .oBlk _ => "oBlk" | .oNext .. => "oNext" | .oSetBlk .. => "oSetBlk"
+  | .oIdx => "oIdx" | .oTail _ => "oTail" | .oBlk _ => "oBlk" | .oRd .. => "oRd" | .oNext .. => "oNext" | .oSetBlk .. => "oSetBlk"
   | .oStore .. => "oStore"
-  | .kIdx => "kIdx" | .kTail _ => "kTail" | .kBlk _ => "kBlk" | .lHead _ => "lHead" | .lTail .. => "lTail"
-  | .bIdx d => if d then "bIdx.d" else "bIdx" | .bTail .. => "bTail" | .bBlk .. => "bBlk" | .bNext .. => "bNext"
+  | .kIdx => "kIdx" | .kTail _ => "kTail" | .kBlk _ => "kBlk" | .kRd .. => "kRd" | .lHead _ => "lHead" | .lTail .. => "lTail"
+  | .bIdx d => if d then "bIdx.d" else "bIdx" | .bTail .. => "bTail" | .bBlk .. => "bBlk" | .bRd .. => "bRd" | .bNext .. => "bNext"
   | .bSetBlk .. => "bSetBlk" | .bStore .. => "bStore"
   | .dHead => "dHead" | .dTail _ => "dTail" | .dFirst _ => "dFirst" | .dNext .. => "dNext" | .dFree .. => "dFree"
   | .dFreeH _ => "dFreeH"
